@@ -157,6 +157,38 @@ def run(tier):
         for e, s, b in exprs:
             for t in (MEMT if (b in (fam[0], fam[3], fam[9], sp, None)) else MEMT[:1] + [rnd.choice(MEMT)]):
                 bad.append(("spindex", t % e, {"scale": s, "base": b, "sp": sp, "tmpl": t}))
+    # memory expressions as SUMS OF TERMS in any number and order (plain register, register*scale, scale*register, displacement; 2-4
+    # terms; registers drawn with repetition from a small pool, so that the same register occurs in several terms) that contain an
+    # invalid scale or a scaled stack pointer somewhere - also behind two other register terms, where a validity check that looks at
+    # "the" index only does not see it. nasm referees (it folds [rax+rbx+rbx] or [rbx+rbx*2] into legal addresses: those are dropped)
+    nterm = 2500 if not full else 60000
+    seen_e = set()
+    for k in range(nterm * 3):
+        if len(seen_e) >= nterm:
+            break
+        pool = rnd.choice([["rax", "rbx", "rcx"], ["rbx", "rsp", "r9"], ["eax", "ebx", "esp"], ["r8", "r9", "r12"], ["rax", "rsp"], ["r13d", "r9d", "ecx"]])
+        nt = rnd.choice([2, 3, 3, 3, 4])
+        terms, has_bad = [], False
+        for i in range(nt):
+            kind = rnd.choice("RRSSTD")
+            r = rnd.choice(pool)
+            if kind == "R":
+                terms.append(r)
+            elif kind == "D":
+                terms.append(rnd.choice(["8", "0x10", "0x100"]))
+            else:
+                sc = rnd.choice([1, 2, 4, 8, 3, 5, 6, 7, 9, 10, 16])
+                if sc not in (1, 2, 4, 8) or (r in ("rsp", "esp") and sc != 1):
+                    has_bad = True
+                terms.append("%s*%d" % (r, sc) if kind == "S" else "%d*%s" % (sc, r))
+        if not has_bad:
+            continue
+        e = "[" + "+".join(terms) + "]"
+        if e in seen_e:
+            continue
+        seen_e.add(e)
+        for t in (MEMT[:2] + rnd.sample(MEMT, 2) if full else [rnd.choice(MEMT[:3]), rnd.choice(MEMT)]):
+            bad.append(("memterms", t % e, {"expr": e, "tmpl": t, "nterms": nt}))
     # registers that cannot address memory (8/16-bit, MMX, XMM, YMM) as base or index, and base/index of different widths
     for breg in ("al", "ah", "bl", "sil", "r8b", "ax", "bx", "si", "bp", "r8w", "mm0", "xmm0", "xmm9", "ymm1", "ymm15"):
         for e in ("[%s]" % breg, "[%s+8]" % breg, "[rax+%s]" % breg, "[rax+%s*2]" % breg, "[%s+rcx]" % breg, "[4*%s]" % breg, "[%s+rcx*8-0x100]" % breg):
@@ -196,9 +228,9 @@ def run(tier):
                 for ch in (INNER if full or pos % 2 else "!~_."):
                     bad.append(("innerjunk", t[:pos] + ch + t[pos:], {"pos": pos, "char": ch, "tmpl": t}))
     # families (iii) and (iv): nasm is the referee for "invalid" as well - a line nasm assembles is not demanded to be rejected
-    ref = oracle.nasm_many([t for fam, t, m in bad if fam in ("scale", "spindex", "syntax", "addrreg", "junkvalid")])
+    ref = oracle.nasm_many([t for fam, t, m in bad if fam in ("scale", "spindex", "syntax", "addrreg", "junkvalid", "memterms")])
     nref = len(bad)
-    bad = [(fam, t, m) for fam, t, m in bad if fam not in ("scale", "spindex", "syntax", "addrreg", "junkvalid") or ref[t][0] is None]
+    bad = [(fam, t, m) for fam, t, m in bad if fam not in ("scale", "spindex", "syntax", "addrreg", "junkvalid", "memterms") or ref[t][0] is None]
     dropped_by_referee = nref - len(bad)
     # (vi) junk in front of a malformed line does not rescue it: characters that are neither letters nor the comment (';') / macro ('%') /
     # label (':') markers - a line with a ':' is a label line and is skipped as a whole, as documented
@@ -246,7 +278,7 @@ def run(tier):
     stats["rejected_resubmitted_ok"] = enc.retry_rejected(v, binary, rej if full else rnd.sample(rej, min(len(rej), 4000)))
     v.cov["rule"] = ("(i) every spec mnemonic x every operand-kind tuple over {scalar reg, xmm, ymm, memory, immediate} with 0-4 operands (781 tuples); a tuple is 'not defined in x86-64' iff nasm rejects ALL its "
                      "instantiations (live referee, %d lines this run), then instantiated for the library; (ii) every one-character edit of every register name that is lexically a name and not a register/keyword, in "
-                     "register, memory-base and index positions; (iii) scales 0,3,5,6,7,9,10,16,42 in both factor orders; the stack pointer as scaled index, as index of itself, with every base; 8/16-bit, MMX, XMM and YMM registers as base or index and base/index of different widths; (iv) bracket / comma / "
+                     "register, memory-base and index positions; (iii) scales 0,3,5,6,7,9,10,16,42 in both factor orders; the stack pointer as scaled index, as index of itself, with every base; sums of 2-4 register / scaled-register / displacement terms in any order with repeated registers that contain an invalid scale or a scaled stack pointer (nasm-refereed); 8/16-bit, MMX, XMM and YMM registers as base or index and base/index of different widths; (iv) bracket / comma / "
                      "operand-after-immediate / empty-operand / unknown-mnemonic syntax errors; (v) bytes 0x7f-0xff, byte order marks and UTF-8 sequences at line start / between tokens / line end, and control bytes 0x01-0x1f (except tab, CR, LF) at positions of 8 template lines, printable non-token characters inside mnemonics and register names; (vi) lines of (i)-(iv) behind 1-3 junk characters (every printable non-letter except ';', '%%' and ':'). Each alone and first/middle/last in a program with valid neighbours, "
                      "option combos sampled. Oracle: rc == EXIT_FAILURE and no byte at or after the rejected line's start differs from the prefill" % nnasm)
     v.cov["exhaustive"] = False
